@@ -172,7 +172,7 @@ fn c02_int_i16_int() {
 	cell_int::<i16>(kani::any(), &nodes::INT, IntKind::Int);
 }
 
-// @harness props=C02 also=C01 tier=quick timeout=900
+// @harness props=C02,C01 tier=quick timeout=900
 // @bound every value of i32 presented through serialize_i32 against node int (IntKind::Int); output <= 40 bytes; unwind 18 >= 16 decimal bytes + 2
 #[kani::proof]
 #[kani::unwind(18)]
@@ -271,7 +271,7 @@ fn c02_int_i32_long() {
 	cell_int::<i32>(kani::any(), &nodes::LONG, IntKind::Long);
 }
 
-// @harness props=C02 also=C01 tier=quick timeout=900
+// @harness props=C02,C01 tier=quick timeout=900
 // @bound every value of i64 presented through serialize_i64 against node long (IntKind::Long); output <= 40 bytes; unwind 18 >= 16 decimal bytes + 2
 #[kani::proof]
 #[kani::unwind(18)]
@@ -454,7 +454,7 @@ fn c02_int_i32_enum2() {
 	cell_int::<i32>(kani::any(), e, IntKind::Enum(2));
 }
 
-// @harness props=C02 also=C01 tier=quick timeout=900
+// @harness props=C02,C01 tier=quick timeout=900
 // @bound every value of i64 presented through serialize_i64 against node enum2 (IntKind::Enum(2)); output <= 40 bytes; unwind 18 >= 16 decimal bytes + 2
 #[kani::proof]
 #[kani::unwind(18)]
@@ -554,7 +554,7 @@ fn c02_int_i32_decb0() {
 	cell_int::<i32>(kani::any(), d, IntKind::DecBytes(0));
 }
 
-// @harness props=C02 also=C01 tier=quick timeout=900
+// @harness props=C02,C01 tier=quick timeout=900
 // @bound every value of i64 presented through serialize_i64 against node decb0 (IntKind::DecBytes(0)); output <= 40 bytes; unwind 18 >= 16 decimal bytes + 2
 #[kani::proof]
 #[kani::unwind(18)]
@@ -854,7 +854,7 @@ fn c02_int_i32_decf1_0() {
 	cell_int::<i32>(kani::any(), d, IntKind::DecFixed(1, 0));
 }
 
-// @harness props=C02 also=C01 tier=quick timeout=900
+// @harness props=C02,C01 tier=quick timeout=900
 // @bound every value of i64 presented through serialize_i64 against node decf1_0 (IntKind::DecFixed(1, 0)); output <= 40 bytes; unwind 18 >= 16 decimal bytes + 2
 #[kani::proof]
 #[kani::unwind(18)]
@@ -1451,7 +1451,7 @@ fn c02_bytes_to_string() {
 	std::mem::forget(r);
 }
 
-// @harness props=C02 also=C01 tier=quick timeout=900
+// @harness props=C02,C01 tier=quick timeout=900
 // @bound bytes (0..=4 symbolic) to `bytes`; to fixed(3): Ok iff length == 3 and then exactly those bytes; to duration: Ok iff length == 12
 #[kani::proof]
 #[kani::unwind(15)]
@@ -1490,7 +1490,7 @@ impl Serialize for StrSrc<'_> {
 	}
 }
 
-// @harness props=C02 also=C01 tier=quick timeout=900
+// @harness props=C02,C01 tier=quick timeout=900
 // @bound str presented to enum {a,b,cc}: each symbol -> its index as varint; non-members ("c", "", "ccc") -> Err
 #[kani::proof]
 #[kani::unwind(8)]
@@ -1632,7 +1632,7 @@ fn c02_seq_to_bytes_fixed() {
 	std::mem::forget(r);
 }
 
-// @harness props=C02 also=C01 tier=quick timeout=900
+// @harness props=C02,C01 tier=quick timeout=900
 // @bound duration from (u32,u32,u32) tuple and from struct {months,days,milliseconds}: all values -> 12 little-endian bytes
 #[kani::proof]
 #[kani::unwind(14)]
@@ -1651,7 +1651,7 @@ fn c02_duration() {
 	std::mem::forget(r);
 }
 
-// @harness props=C02 also=C01 tier=quick timeout=900
+// @harness props=C02,C01 tier=quick timeout=900
 // @bound float (all f32 bit patterns via serialize_f32), double (all f64 bit patterns), boolean, unit->null, f32 to double -> Err
 #[kani::proof]
 #[kani::unwind(10)]
@@ -1683,7 +1683,7 @@ fn c02_fixed_width() {
 	std::mem::forget(r);
 }
 
-// @harness props=C02 also=C01 tier=quick timeout=900
+// @harness props=C02,C01 tier=quick timeout=900
 // @bound str of 0..=3 symbolic bytes (well-formed UTF-8) to string / bytes / uuid: length-prefixed copy; to fixed(2): Ok iff 2 bytes
 #[kani::proof]
 #[kani::unwind(8)]
@@ -1731,7 +1731,7 @@ fn decimal_serialize_case(node: &'static SchemaNode<'static>, m: i128) -> (Resul
 	(r, w)
 }
 
-// @harness props=C02,C01 tier=quick timeout=1800
+// @harness props=C02 also=C01 tier=quick timeout=1800
 // @bound decimal(bytes, scale 0) and decimal(fixed 2) from a rust_decimal value with every mantissa in -2^40..2^40 at scale 0 (the sign-aware minimal-length truncation): Ok => length-prefixed two's complement that decodes to the same number; does not fit fixed(2) => Err
 #[kani::proof]
 #[kani::unwind(19)]
